@@ -1,6 +1,8 @@
 //! vh — conformance harness binding the TLA+ specifications in /verif/spec to tikv/rust-prometheus.
 #![allow(dead_code, deprecated)]
+mod api;
 mod conc;
+mod macro_arms;
 mod pm;
 mod sched;
 
@@ -13,6 +15,7 @@ fn main() {
     match args[1].as_str() {
         // vh conc <scenario+jobs.ndjson> <out.ndjson> [ops]
         "conc" => conc::run_file(&args[2], &args[3], args.get(4).map(|s| s == "ops").unwrap_or(false)),
+        "api" => api::run_file(&args[2], &args[3]),
         "seq" => conc::run_seq(&args[2], &args[3]),
         other => {
             eprintln!("unknown subcommand {}", other);
